@@ -72,7 +72,7 @@ def FragPre (h : Host) (cfg : Cfg) : Call → Prop
     (InOut cfg src → Shows h cfg dest src ∧ Canon h cfg src) ∧
     (below = true → Jumps h cfg dest src) ∧
     (below = false → ∃ d0 x0, Jumps h cfg d0 x0 ∧ notSecret cfg x0 ∧ BelowOf cfg d0 x0 dest src)
-  | .below dest src ms =>
+  | .below dest src _ ms =>
     ¬ ProperPrefix src cfg.ctrOut ∧ (∀ e ∈ ms, e ∈ cfg.mounts) ∧ Jumps h cfg dest src ∧ notSecret cfg src
   | .host dest src _ inc =>
     Shows h cfg dest src ∧ Canon h cfg src ∧ (inc = true → Jumps h cfg dest src ∧ notSecret cfg src)
@@ -106,7 +106,7 @@ theorem scan_frags_walk (h : Host) (cfg : Cfg) (hwf : HostWF h) (wf : CfgWF h cf
           obtain ⟨hmem, hpre, hlen⟩ := srcMount_mem cfg src (root, m) hsm
           simp only at hw
           have hcont : ∀ s1 : Plan, FragJust h cfg s1 →
-              (if below = true then walk h cfg fuel (.below dest src cfg.mounts) s1 else .ok s1) = .ok st' →
+              (if below = true then walk h cfg fuel (.below dest src n cfg.mounts) s1 else .ok s1) = .ok st' →
               FragJust h cfg st' := by
             intro s1 hj1 hc
             split at hc
@@ -158,14 +158,14 @@ theorem scan_frags_walk (h : Host) (cfg : Cfg) (hwf : HostWF h) (wf : CfgWF h cf
                         obtain ⟨d0, x0, hj0, hns0, hbo⟩ := hcj3 hb
                         exact ⟨d0, x0, hj0, Or.inr ⟨hns0, mem_belowFrags cfg d0 x0 dest src hbo f hf⟩⟩
                 · cases hw
-    | below dest src ms =>
+    | below dest src n ms =>
       cases ms with
       | nil => rw [walk] at hw; cases hw; exact hj
       | cons e ms =>
         obtain ⟨mnt, m⟩ := e
         obtain ⟨hpp, hsub, hjump, hns⟩ := hcj
         rw [walk] at hw
-        have hrest : FragPre h cfg (.below dest src ms) :=
+        have hrest : FragPre h cfg (.below dest src n ms) :=
           ⟨hpp, fun e he => hsub e (List.mem_cons_of_mem _ he), hjump, hns⟩
         split at hw
         · rename_i hc
@@ -330,9 +330,9 @@ theorem mount_call_frag (h : Host) (cfg : Cfg) (dest x : Path) (n fuel : Nat) (b
               · rename_i hwr; simp [hwr]
 
 /-- a successful `walkMountsBelow` loop has appended the extract of every mount it does not skip -/
-theorem below_loop_frags (h : Host) (cfg : Cfg) (dest x : Path) :
+theorem below_loop_frags (h : Host) (cfg : Cfg) (dest x : Path) (n : Nat) :
     ∀ (ms : List (Path × Mount)) (fuel : Nat) (st st' : Plan),
-      walk h cfg fuel (.below dest x ms) st = .ok st' →
+      walk h cfg fuel (.below dest x n ms) st = .ok st' →
       ∀ e ∈ ms, x.isPrefixOf e.1 ∧ x.length < e.1.length ∧ ¬ copyRegular e.2 →
         ∀ f ∈ fragOf cfg (dest ++ e.1.drop x.length) e.1, f ∈ st'.frags := by
   intro ms
@@ -355,8 +355,8 @@ theorem below_loop_frags (h : Host) (cfg : Cfg) (dest x : Path) :
         · exact absurd hcond hc
         · exact ih fuel st st' hw e hm hcond f hf
 
-theorem below_call_frags (h : Host) (cfg : Cfg) (dest x : Path) (fuel : Nat) (st st' : Plan)
-    (hw : walk h cfg fuel (.below dest x cfg.mounts) st = .ok st') :
+theorem below_call_frags (h : Host) (cfg : Cfg) (dest x : Path) (n fuel : Nat) (st st' : Plan)
+    (hw : walk h cfg fuel (.below dest x n cfg.mounts) st = .ok st') :
     ∀ f ∈ belowFrags cfg dest x, f ∈ st'.frags := by
   intro f hf
   unfold belowFrags at hf
@@ -364,7 +364,7 @@ theorem below_call_frags (h : Host) (cfg : Cfg) (dest x : Path) (fuel : Nat) (st
   obtain ⟨e, he, hfe⟩ := hf
   split at hfe
   · rename_i hc
-    exact below_loop_frags h cfg dest x cfg.mounts fuel st st' hw e he hc f hfe
+    exact below_loop_frags h cfg dest x n cfg.mounts fuel st st' hw e he hc f hfe
   · cases hfe
 
 /-- a successful `walkMount(dest, x, …, true)` on a position that no secret mount hides has also
@@ -387,7 +387,7 @@ theorem mount_call_below (h : Host) (cfg : Cfg) (hs : supported cfg = true) (des
       obtain ⟨hmem, _, _⟩ := srcMount_mem cfg x (root, m) hsm
       simp only [if_true] at hw
       split at hw
-      · exact below_call_frags h cfg dest x fuel _ st' hw
+      · exact below_call_frags h cfg dest x _ fuel _ st' hw
       · split at hw
         · rename_i hk
           have hr : root = cfg.ctrOut := supported_tmp cfg hs (root, m) hmem hk
@@ -400,7 +400,7 @@ theorem mount_call_below (h : Host) (cfg : Cfg) (hs : supported cfg = true) (des
             obtain ⟨a, ha, hrest⟩ := bind_eq_ok _ _ _ hw
             simp only [if_true] at ha
             intro f hf
-            have hfa := below_call_frags h cfg dest x fuel _ a ha f hf
+            have hfa := below_call_frags h cfg dest x _ fuel _ a ha f hf
             -- the rest of the host walk only appends
             have hle : a.le st' := by
               have : walk h cfg (fuel + 1) (.host dest x n false) a = .ok st' := by
@@ -416,7 +416,7 @@ theorem mount_call_below (h : Host) (cfg : Cfg) (hs : supported cfg = true) (des
               | none => rw [hc] at hw; cases hw
               | some c =>
                 rw [hc] at hw
-                exact below_call_frags h cfg dest x fuel _ st' hw
+                exact below_call_frags h cfg dest x _ fuel _ st' hw
             · cases hw
 
 /-- **mounted content, completeness**: a successful scan has collected the extract for every
